@@ -300,7 +300,9 @@ def monitor(prop, trace_paths, workdir, workers_each=2, parallel=8, timeout=900,
     for path, rc, out, wall in results:
         nrec = sum(1 for _ in open(path, encoding="utf-8"))
         if "Model checking completed. No error has been found." not in out:
-            raise ToolError("TLC monitor run failed on %s (rc=%s):\n%s" % (path, rc, out[-3000:]))
+            import re as _re
+            m_ = _re.search(r"Error: .*(?:\n.*){0,6}", out)
+            raise ToolError("TLC monitor run failed on %s (rc=%s):\n%s" % (path, rc, m_.group(0)[:2000] if m_ else out[-1500:]))
         st = parse_tlc_stats(out)
         if st["distinct"] != nrec:
             raise ToolError("monitor consumed %d of %d records of %s" % (st["distinct"], nrec, path))
